@@ -107,7 +107,10 @@ Print Assumptions C14_null_step_keeps_unitarity.
    the error model is left as it was; and every component is ([comp_ok]) a barrier, a
    beam splitter on adjacent modes (m, m+1) with reflectivity 1/2, or a phase shifter on a
    mode < n whose programmed value lies in [0, 2 pi) and whose amplitude is exp(i value).
-   No loss element is emitted. *)
+   No loss element is emitted.
+   Diagonality is a hypothesis here and not derived from check_null = true, because
+   check_null (transcribed as it is: real(m > p) or imag(m) > p) only looks at positive
+   residuals; the theorems C14_..._partial below derive it from the loop itself. *)
 Theorem C14_reck_reconstructs :
   forall eps2 prec uprec2 ints unif norm (fuel n : nat) (U : mat) (hin hout : list (nat * Z))
          (seed : pyseed) (tok : nat) (ans : nat -> R * R) (endo : nat -> R) (g1 g2 g3 : rng)
@@ -259,6 +262,51 @@ Proof.
            conj (pmod_range eps2 prec uprec2 ints unif norm x) (cisR_pmod eps2 prec uprec2 ints unif norm x)).
 Qed.
 Print Assumptions C14_programmed_phase_in_range.
+
+(* ------------------------------------------------------------------------- *)
+(* reck.py: Reck.map with ANY error model still gives a valid (sub-)unitary  *)
+(* ------------------------------------------------------------------------- *)
+
+(* For every error model (any Constant/TopHat/Gaussian distributions, any generator streams,
+   any seed), every input matrix and every oracle answer: IF Reck.map returns a circuit then
+   it has n modes, every component is well-formed ([comp_sub]: modes < n, beam splitters on
+   adjacent modes with reflectivity in [0,1], phase shifters with unit-modulus amplitude,
+   loss in [0,1] — a draw outside [0,1] makes bs()/loss validation raise instead), the
+   compiled transformation is a contraction (|M v|^2 <= |v|^2 for every vector v, i.e.
+   sub-unitary), and it is unitary when no loss element was emitted. *)
+Theorem C14_noisy_map_subunitary :
+  forall eps2 prec uprec2 ints unif norm (fuel : nat) (em : emodel) (n : nat) (U : mat)
+         (hin hout : list (nat * Z)) (seed : pyseed) (tok : nat) (ans : nat -> R * R) (endo : nat -> R)
+         (c : circuit) (em' : emodel),
+    reck_map rops (renv eps2 prec uprec2 ints unif norm) fuel em n U hin hout seed tok ans endo = Ok (c, em') ->
+    c_n c = n /\ Forall (comp_sub n) (c_spec c) /\
+    contraction n (compile rops (renv eps2 prec uprec2 ints unif norm) n (c_spec c)) /\
+    (Forall not_loss (c_spec c) ->
+     unitary Cr n (compile rops (renv eps2 prec uprec2 ints unif norm) n (c_spec c))).
+Proof. exact noisy_map_subunitary. Qed.
+Print Assumptions C14_noisy_map_subunitary.
+
+(* non-vacuity: Reck.map does succeed with a non-trivial error model — one mode, phase offset
+   drawn from TopHat(0, 1) whose generator was in some arbitrary state before; afterwards that
+   generator is the one derived from the seed, advanced by the one draw that was made *)
+Example C14_noisy_map_nonvacuous :
+  exists c em',
+    reck_map rops (renv (/ 4) (/ 4) 0 (fun _ k => Z.of_nat k) (fun _ _ => / 2)%R (fun _ _ => 0%R)) 5
+      (mkEm (mkDobj (DConst (/ 2)%R) norng) (mkDobj (DConst 0%R) norng)
+            (mkDobj (DTopHat 0 1)%R (mkRng (Entropy 7) 3)))
+      1 (mid Cr) [] [] (SeedInt 11) 0 (fun _ => (0, 0)%R) (fun _ => 0%R) = Ok (c, em') /\
+    d_rng (em_phase em') = mkRng (Seeded 0) 1.
+Proof. exact example_noisy_map. Qed.
+
+(* what [comp_sub], [not_loss], [contraction] say *)
+Example C14_comp_sub_meaning :
+  forall n m (p : phase) (r l : R) (M : mat),
+    (comp_sub n (CPS m p) <-> m < n /\ cnorm2 rops (ph_amp p) = 1%R) /\
+    (comp_sub n (CBS m (S m) r) <-> m < n /\ S m = S m /\ S m < n /\ (0 <= r <= 1)%R) /\
+    (comp_sub n (CLoss m l) <-> m < n /\ (0 <= l <= 1)%R) /\
+    (not_loss (CLoss m l) <-> False) /\ (not_loss (CPS m p) <-> True) /\
+    (contraction n M <-> forall v, (vnorm2 n (mvec n M v) <= vnorm2 n v)%R).
+Proof. intros. simpl. unfold contraction. intuition. Qed.
 
 (* ------------------------------------------------------------------------- *)
 (* dists/*.py: every drawn value lies within the declared bounds             *)
